@@ -709,7 +709,7 @@ func main() {
 	}
 
 	// exhaustive part
-	L := args.Pick(7, 9)
+	L := args.Pick(7, 8)
 	cfgs := exhaustiveCfgs()
 	wc := wordCount(4, L)
 	totalExh := len(cfgs) * wc
@@ -754,7 +754,7 @@ func main() {
 	v.Exhaustive = true
 
 	// random part
-	nRand := args.Pick(4000, 80000)
+	nRand := args.Pick(4000, 160000)
 	lo, hi = args.Share(nRand)
 	for i := lo; i < hi; i++ {
 		r := args.CaseRand(i)
